@@ -3,6 +3,7 @@ set-marshalling models (coq/Codec/Envelope.v); correspondence = the models, inst
 inner-codec and per-type decoder verdicts recorded from Go, must reproduce what core/ssz.go and
 core/proto.go did on the same bytes (evaluated by vm_compute); round trips and the crash-freedom
 exploration run in the Go harness (harness/codec) and are reported as exploration."""
+import glob
 import json
 import os
 import re
@@ -71,16 +72,17 @@ def dcases_v(cs):
     for c in cs:
         duty = DUTY.get(c["duty"], "DOther")
         if c["signed"]:
-            orc = "[" + "; ".join("(T%s, %s, %s, %s)" % (t, b(c["oracle"][t][0]), b(c["oracle"][t][1]), b(c["oracle"][t][2])) for t in STYPES) + "]"
+            orc = "[" + "; ".join("(T%s, %s)" % (t, ", ".join(b(x) for x in c["oracle"][t])) for t in STYPES) + "]"
             exp = "None" if c["expect"] in ("", "PANIC") else "(Some T%s)" % c["expect"]
             srows.append("{| s_id := %d; s_duty := %s; s_prefix := %s; s_oracle := %s; s_expect := %s |}" % (c["id"], duty, pack(c["prefix"]), orc, exp))
         else:
-            orc = "[" + "; ".join("(U%s, %s, %s, %s)" % (t, b(c["oracle"][t][0]), b(c["oracle"][t][1]), b(c["oracle"][t][2])) for t in UTYPES) + "]"
+            orc = "[" + "; ".join("(U%s, %s)" % (t, ", ".join(b(x) for x in c["oracle"][t])) for t in UTYPES) + "]"
             exp = "None" if c["expect"] in ("", "PANIC") else "(Some U%s)" % c["expect"]
             urows.append("{| u_id := %d; u_duty := %s; u_prefix := %s; u_oracle := %s; u_expect := %s |}" % (c["id"], duty, pack(c["prefix"]), orc, exp))
     return HEADER + "Definition scases : list scase := [\n" + ";\n".join(srows) + "\n].\n" + \
         "Definition ucases : list ucase := [\n" + ";\n".join(urows) + "\n].\n" + \
-        "Definition dmism := Eval vm_compute in (flat_map check_scase scases ++ flat_map check_ucase ucases)%list.\nPrint dmism.\n"
+        "Definition dmism := Eval vm_compute in (flat_map (check_scase false) scases ++ flat_map (check_ucase false) ucases)%list.\nPrint dmism.\n" + \
+        "Definition vmism := Eval vm_compute in (flat_map (check_scase true) scases ++ flat_map (check_ucase true) ucases)%list.\nPrint vmism.\n"
 
 
 def setcases_v(cs):
@@ -131,6 +133,8 @@ def main():
     R.proofs(extra_targets=["Codec/EnvelopeCorr.v"])
 
     replay = os.environ.get("VERIF_REPLAY")
+    for old in glob.glob(os.path.join(vp.COQ, "gen", "cases_C14_*")):   # shards of earlier (larger) runs
+        os.remove(old)
     rc, out, od = vp.go_harness("codec", timeout=1400)
     if rc != 0:
         R.broke("correspondence:harness codec failed to run", out[-3000:])
@@ -176,17 +180,24 @@ def main():
             R.violation("C14:panic:decode:%s:%d" % ("signed" if c["signed"] else "unsigned", c["duty"]),
                         "a panic escaped the decode entry point (recover removed?) on input " + c["label"],
                         {"format": "bytes", "input": c["prefix"], "duty": c["duty"], "signed": c["signed"]})
+    plain_bad, val_bad = [], []
     for i, sh in enumerate(vp.chunks(dcs, 4000)):
         rc2, out2 = vp.coq_eval("C14_disp_%d" % i, dcases_v(sh))
         if rc2 != 0:
             R.broke("correspondence:cases_C14_disp_%d does not compile" % i, out2[-2000:])
             continue
-        term = vp.parse_marked(out2, "dmism")
-        bad = nums(term)
+        plain_bad += nums(vp.parse_marked(out2, "dmism"))
+        val_bad += nums(vp.parse_marked(out2, "vmism"))
+    # the code under test either returns whatever the selected decoder produced (unrepaired), or validates
+    # it first (repaired): one of the two models must explain every case of the run
+    mode = "unvalidated" if not plain_bad else ("validated" if not val_bad else "neither")
+    R.coverage["dispatch_model_variant"] = mode
+    if mode == "neither":
+        bad = plain_bad if len(plain_bad) <= len(val_bad) else val_bad
         for cid in bad[:6]:
             c = dbyid[cid]
             R.broke("correspondence:dispatch model differs from Go: duty %d %s input %s -> Go %r" % (
-                c["duty"], "signed" if c["signed"] else "unsigned", c["label"], c["expect"] or "error"), json.dumps(c))
+                c["duty"], "signed" if c["signed"] else "unsigned", c["label"], c["expect"] or "error"), json.dumps(c)[:1500])
         n_rej += len(bad)
     # ---- sets
     if scs:
